@@ -53,7 +53,7 @@ def _judge(ctx, module, chunks, name, env=None, heap="4g", par=8, timeout=1500):
         with open(tp, "w") as f:
             f.writelines(chunks[ix])
         out = ctx.path("gen", "%s_verdict_%d.json" % (name, ix))
-        e = dict(VERIF_TRACE=tp, VERIF_OUT=out)
+        e = dict(VERIF_TRACE=tp, VERIF_OUT=out, JAVA_TOOL_OPTIONS="-Dfile.encoding=UTF-8")
         e.update(env or {})
         r = ctx.tlc(module, module + ".cfg", name="%s_%d" % (name, ix), workers=1, heap=heap, env=e, timeout=timeout,
                     coverage=(ix == 0 and os.environ.get("VERIF_COVERAGE") == "1"))
@@ -81,7 +81,7 @@ def _report(ctx, complaints, replay_of):
     """complaints: dicts with at least 'rule'. Known findings are matched on rule + the listed fields."""
     hist = collections.Counter()
     for c in complaints:
-        hist[(c["rule"], c.get("backend", ""), c.get("kind", ""), c.get("dev", ""))] += 1
+        hist[(c["rule"], c.get("backend", ""), c.get("kind", ""), c.get("dev", ""), c.get("why", ""))] += 1
     if hist:
         ctx.log("complaints: " + ", ".join("%s=%d" % ("/".join(x for x in k if x), v) for k, v in sorted(hist.items())))
     known = [f for f in ctx.findings() if f.get("status") == "known"]
@@ -348,6 +348,103 @@ def gen_c20(seed, n):
     return g.ops, probe
 
 
+def gen_c21(seed, n):
+    """short histories (the number of storage writes W is capped by construction); persistent sessions mostly"""
+    r = random.Random(seed)
+    g = SGen(r, crash=True)
+    ids = IDS[:4]
+    topics = TOPICS[:3]
+
+    def conn(c, **kw):
+        v = g.used.get(c, {}).get("v") or r.choice([4, 5])
+        persistent = r.random() < 0.8
+        if v == 4:
+            return g.connect(c, v=4, clean=kw.pop("clean", not persistent), **kw)
+        return g.connect(c, v=5, clean=kw.pop("clean", r.random() < 0.2), sei=300 if persistent else r.choice([0, -1]), **kw)
+
+    conn(r.choice(["a", "a:b"]))
+    while len(g.ops) < n:
+        x = r.random()
+        live = [c for c in ids if c in g.conn]
+        if x < 0.15 or not live:
+            free = [c for c in ids if c not in g.conn]
+            if free:
+                conn(r.choice(free))
+        elif x < 0.27:
+            c = r.choice(live)
+            old = g.conn[c]
+            if r.random() < 0.5:
+                g.ops.append(_op("arm", k=old, point="teardown.cleanup"))
+                conn(c, kind="free")
+                g.ops.append(_op("release", k=old))
+            else:
+                conn(c)
+        elif x < 0.50:
+            if r.random() < 0.3:
+                c, f = r.choice([("a:b", ["c"]), ("a", ["b:c"])])
+                if c not in g.conn:
+                    conn(c)
+                g.subscribe(c, f=f, qos=r.choice([1, 2]))
+            else:
+                g.subscribe(r.choice(live), f=r.choice(topics), qos=r.choice([1, 1, 2]))
+        elif x < 0.55:
+            g.unsubscribe(r.choice(live))
+        elif x < 0.68:
+            g.publish(r.choice(live), True, t=r.choice(topics), qos=1, clear=r.random() < 0.15)
+        elif x < 0.86:
+            g.publish(r.choice(live), False, t=r.choice(topics), qos=r.choice([1, 1, 2]))
+        elif x < 0.92:
+            g.ack(r.choice(live))
+        else:
+            g.drop(r.choice(live))
+    probe = [_op("mark", kind="probe"), _op("connect", k="pz", id="zz", v=5, clean=True, sei=0)]
+    used = [c for c in IDS if c in g.used]
+    for i, c in enumerate(used):
+        o = _op("connect", k="pa%d" % i, id=c, v=g.used[c]["v"], clean=False)
+        if o["v"] == 5:
+            o["sei"] = 300
+        probe.append(o)
+    for j, t in enumerate(TOPICS):
+        probe.append(_op("publish", k="pz", t=t, m="PA%d" % j, qos=0, retain=False, pid=0))
+    for i, c in enumerate(used):
+        probe.append(_op("netdrop", k="pa%d" % i))
+    for i, c in enumerate(used):
+        o = _op("connect", k="pb%d" % i, id=c, v=g.used[c]["v"], clean=True)
+        if o["v"] == 5:
+            o["sei"] = 300
+        probe.append(o)
+    for j, t in enumerate(TOPICS):
+        probe.append(_op("publish", k="pz", t=t, m="PB%d" % j, qos=0, retain=False, pid=0))
+    return g.ops, probe
+
+
+def _protocol_mc(ctx, devs):
+    """model-check the reference protocol (must satisfy RestoreFaithful, CrashConsistent) and, for non-vacuity, the
+    listed deviations (each must be refuted by TLC)."""
+    ref_cfg = "Storage_quick.cfg" if ctx.quick else "Storage.cfg"
+
+    def run(dev):
+        if dev is None:
+            return dev, ctx.tlc("Storage", ref_cfg, name="mc_ref", workers=6, heap="6g", timeout=1500)
+        return dev, ctx.tlc("Storage", "Storage_dev.cfg", name="mc_" + dev, workers=2, heap="3g", timeout=900, defines=dict(DEV='"%s"' % dev))
+    with ThreadPoolExecutor(max_workers=6) as ex:
+        res = dict(ex.map(run, [None] + list(devs)))
+    ref = res[None]
+    ref.require_ok("%s (reference persistence protocol: RestoreFaithful, CrashConsistent)" % ref_cfg)
+    refuted = {}
+    for d in devs:
+        m = None
+        for line in res[d].out.splitlines():
+            if "Invariant" in line and "is violated" in line:
+                m = line.split("Invariant")[1].split()[0]
+        if not m:
+            sys.stderr.write(res[d].tail(30) + "\n")
+            raise Inconclusive("Storage.tla does not refute deviation %s (vacuous model)" % d)
+        refuted[d] = m
+    ctx.log("TLC: reference protocol holds (%d distinct states, depth %d); refuted deviations: %s" % (ref.distinct, ref.depth, refuted))
+    return ref, refuted
+
+
 def _drive(ctx, what, hists, name, timeout=3000):
     vs = _vstore(ctx)
     hp = ctx.path("gen", name + "_hist.json")
@@ -387,9 +484,8 @@ def _history_of(chunks, c):
 
 # ------------------------------------------------------------------------------------------------ C20
 def c20(ctx):
-    mc = ctx.tlc("Storage", "Storage.cfg", name="mc_ref", workers=8, heap="6g", timeout=1500)
-    mc.require_ok("Storage.cfg (reference protocol: RestoreFaithful and CrashConsistent)")
-    ctx.log("TLC model-checked the reference persistence protocol: %d distinct states, depth %d" % (mc.distinct, mc.depth))
+    mc, refuted = _protocol_mc(ctx, ["FlagsNotPersisted", "NoMsgExpiry", "ConcatKeys", "StoreRefused", "NoPacketID"] +
+                               ([] if ctx.quick else ["OrphanSubs", "ZombieRewrite"]))
     nh = 10 if ctx.quick else 150
     hists = []
     for i in range(nh):
@@ -420,9 +516,50 @@ def c20(ctx):
              "%d probe steps of the continued history (session present, redelivery, expiry ticks, retained replay, deliveries). The reference protocol of "
              "Storage.tla is model-checked (%d states). distinct_nontrivial = distinct pre-shutdown projections." % (nh, restarts, probes, mc.distinct),
         samples=[{k: c[k] for k in ("rule", "backend", "c", "x", "name")} for c in complaints[:5]],
-        restarts=restarts, probe_steps=probes, complaints=len(complaints), model_states=mc.distinct)
+        restarts=restarts, probe_steps=probes, complaints=len(complaints), model_states=mc.distinct, deviations_refuted=refuted)
     ctx.assumptions += ["redis is miniredis (in-process)", "filters are exact topic names (wildcard matching is C01's subject)",
                         "a restart is: every connection dropped, Server.Close (stops the hook), new Server + fresh hook instance on the same store, readStore"]
 
 
-FAMILY = {"C20": c20, "C22": c22}
+# ------------------------------------------------------------------------------------------------ C21
+def c21(ctx):
+    mc, refuted = _protocol_mc(ctx, ["OrphanSubs", "TakeoverDeletesLive", "ZombieRewrite", "AckBeforePersist"] + ([] if ctx.quick else ["ConcatKeys", "NoPacketID"]))
+    nh = 3 if ctx.quick else 30
+    backends = ["bolt", "badger"] if ctx.quick else BACKENDS
+    hists = []
+    for i in range(nh):
+        ops, probe = gen_c21(ctx.seed * 7919 + i, 9 + (i % 3) * 2)
+        hists.append(dict(name="h%d" % i, backends=backends, cfg=dict(DEF_CFG), ops=ops, probe=probe, max_w=60))
+    tp, info = _drive(ctx, "c21", hists, "c21")
+    chunks = _split(tp, lambda l: l.startswith('{"i":1,"ev":"Config"'), 900)
+    verdicts, states, trans, _ = _judge(ctx, "TraceStorage21", chunks, "c21", heap="6g", par=10)
+    complaints = _collect(verdicts, chunks)
+    _report(ctx, complaints, lambda c: _history_of(chunks, c))
+    runs = sum(v["runs"] for v in verdicts)
+    obl = sum(v["obligations"] for v in verdicts)
+    if runs < info["runs"] or obl == 0:
+        raise Inconclusive("crash runs incomplete (%d of %d restarts, %d obligations)" % (runs, info["runs"], obl))
+    cuts = set()
+    for ch in chunks:
+        for l in ch:
+            if l.startswith('{"i":1,"ev":"Config"'):
+                e = json.loads(l)
+                cuts.add((e["name"], e["backend"], e["cut"]))
+    ctx.cov.update(
+        _level="model_checking", states=max(states + mc.distinct, 1), transitions=max(trans + mc.generated, 1),
+        traces_validated_against_impl=info["runs"], evaluations=obl + runs, distinct_nontrivial=len(cuts), exhaustive=True,
+        rule="%d histories x %s: each history with W storage writes is run W+1 times with the crash hook dropping every write after the n-th "
+             "(n = 0..W, %d crash points in total, exhaustive per history), then a fresh broker loads the surviving store and is probed (Clean Start 0 "
+             "reconnects + publishes, then Clean Start 1 connections + publishes). TLC (TraceStorage21) folds writes and acknowledgements of the common sequence "
+             "into obligations and judges the restored projection and the probe (%d obligations checked). The reference protocol of Storage.tla is "
+             "model-checked with every crash point (%d states); deviations refuted: %s. distinct_nontrivial = (history, backend, crash point) triples." %
+             (nh, backends, info["runs"], obl, mc.distinct, sorted(refuted)),
+        samples=[{k: c[k] for k in ("rule", "backend", "c", "x", "why", "name")} for c in complaints[:5]],
+        crash_runs=info["runs"], obligations=obl, complaints=len(complaints), model_states=mc.distinct, deviations_refuted=refuted)
+    ctx.assumptions += ["each storage-hook call is one atomic write (true for the four backends except badger/pebble OnDisconnect = set + delete, "
+                        "whose intermediate state equals 'call dropped' for the restored projection)",
+                        "a crash is simulated by dropping writes; the in-memory state of the dead process is discarded (fresh Server)",
+                        "acknowledgements are positioned by OnPacketSent, i.e. not earlier than the packet was written to the connection"]
+
+
+FAMILY = {"C20": c20, "C21": c21, "C22": c22}
